@@ -311,8 +311,8 @@ pub fn def_c03() -> PropDef {
         id: "C03",
         run: |ctx| {
             let (rc, sb, bound, mr) = match ctx.tier {
-                Tier::Quick => (700, 6, 1, 1500),
-                Tier::Thorough => (20_000, 40, 2, 60_000),
+                Tier::Quick => (5_000, 12, 1, 1500),
+                Tier::Thorough => (40_000, 40, 2, 60_000),
             };
             run_prop(ctx, "C03", ParGen::default(), rc, sb, bound, mr);
             stress(ctx, "C03");
@@ -332,7 +332,7 @@ pub fn def_c04() -> PropDef {
         id: "C04",
         run: |ctx| {
             let (rc, sb, bound, mr) = match ctx.tier {
-                Tier::Quick => (800, 6, 1, 1500),
+                Tier::Quick => (5_000, 12, 1, 1500),
                 Tier::Thorough => (20_000, 40, 2, 60_000),
             };
             run_prop(ctx, "C04", ParGen { threads: (1, 8), builder: true, cutoff: true, ..Default::default() }, rc, sb, bound, mr);
@@ -348,7 +348,7 @@ pub fn def_c04() -> PropDef {
 
 pub fn run_c05_parallel(ctx: &mut Ctx) {
     let (rc, sb, bound, mr) = match ctx.tier {
-        Tier::Quick => (700, 4, 1, 1200),
+        Tier::Quick => (4_000, 8, 1, 1200),
         Tier::Thorough => (20_000, 30, 2, 60_000),
     };
     run_prop(ctx, "C05", ParGen { threads: (1, 4), cutoff: true, ..Default::default() }, rc, sb, bound, mr);
@@ -402,7 +402,7 @@ fn eval_stress(c: &StressCase, obs: &mut CaseObs, prop: &str) -> Verdict {
 }
 fn stress(ctx: &mut Ctx, prop: &'static str) {
     // shards run concurrently: keep the number of OS threads reasonable
-    let cases = ctx.tier.pick(300, 8_000);
+    let cases = ctx.tier.pick(600, 8_000);
     let p = GenParams { n: (4, 7), b: (2, 4), nd: (2, 3), embed: None, allow_irrelevance: true, allow_potential: true };
     let strat = (table_strategy(p), config_strategy(ConfigGen { max_width: 2, ..Default::default() }), 2usize..=16).prop_map(|(t, cfg, threads)| StressCase { t, cfg, threads });
     ctx.pt_run("stress-real-threads", cases, strat, |c| serde_json::to_value(c).unwrap(), |c, obs| eval_stress(c, obs, prop));
